@@ -28,7 +28,7 @@ def _key(kind, which):
         return A.rsa_jwk(["rsa_2048_a", "rsa_2048_b", "rsa_3072_a", "rsa_2048_e3", "rsa_4096_a"][which % 5])
     if kind == "rsa1024":
         return A.rsa_jwk("rsa_1024_a")
-    if kind in ("rsa2047", "rsa1025", "rsa2041"):
+    if kind in ("rsa2047", "rsa1025", "rsa2041", "rsa2050", "rsa2054"):
         return A.rsa_jwk(["rsa_%s_a" % kind[3:], "rsa_2048_b", "rsa_3072_a"][which % 3])
     if kind in A.EC_CURVES:
         return A.ec_full(kind, which)
